@@ -21,7 +21,16 @@ def r1_number_text(m):
             sites += 1
             r.instances += 1
             recv = A.text(sub.value.value)
-            idx = A.text(sub.slice)
+            # a local that holds the reader's line counter stands for it (`lineno = reader.linecount` ... `source_lines[lineno - 1]`)
+            counter_locals = {}
+            for n_ in A.body_nodes(f.node):
+                if isinstance(n_, ast.Assign) and len(n_.targets) == 1 and isinstance(n_.targets[0], ast.Name) \
+                        and isinstance(n_.value, ast.Attribute) and n_.value.attr == "linecount":
+                    counter_locals.setdefault(n_.targets[0].id, set()).add(A.text(n_.value))
+            slice_ = sub.slice
+            idx = A.text(slice_)
+            if isinstance(slice_, ast.BinOp) and isinstance(slice_.left, ast.Name) and len(counter_locals.get(slice_.left.id, ())) == 1:
+                idx = "%s - %s" % (next(iter(counter_locals[slice_.left.id])), A.text(slice_.right))
             ok = idx == "%s.linecount - 1" % recv
             # the printed number is the same reader's linecount
             nums = {A.text(n.value) for n in A.body_nodes(f.node) if isinstance(n, ast.Attribute) and n.attr == "linecount"}
